@@ -1,6 +1,6 @@
 (* C03 — SRC sections display the encoded words, flags and every callout faithfully. *)
 From Coq Require Import List NArith ZArith Bool Arith.
-From PV Require Gen.Layouts Spec.PublishedLayouts Model.StreamProg Gen.Readers Proofs.ReaderSrcFacts.
+From PV Require Gen.Layouts Spec.PublishedLayouts Model.StreamProg Gen.Readers Proofs.ReaderSrcFacts Spec.PublishedCalloutLoop.
 From PV Require Import Base.Bytes Base.Lit Base.Json Base.Reader Base.PelTypes Model.Parse Model.Render Spec.Encode Spec.DocOf Gen.Tables
                        Proofs.SrcFacts Proofs.RenderFacts Proofs.SrcRenderFacts Proofs.RegistryFacts.
 Import ListNotations.
@@ -143,6 +143,29 @@ Print Assumptions C03_source_src_fixed.
 Theorem C03_src_is_fixed_then_rest : forall d, parse_src d = (x <- ReaderSrcFacts.src_fixed ;; ReaderSrcFacts.src_rest x) d.
 Proof. exact ReaderSrcFacts.parse_src_split. Qed.
 Print Assumptions C03_src_is_fixed_then_rest.
+
+(* the callout subsection walk of SRC.getCallouts: the part before the loop as translated reads the subsection id and flags (into `_`)
+   and the word length, and sets the running length to 4; the translated loop condition is the model's `cur <? words * 4` in the
+   first and in every later round; the loop body (construct the callout, keep it, add its flattened size) is the published text *)
+Theorem C03_source_callouts_head : forall d,
+  match StreamProg.run Gen.Readers.prog_callouts_head (StreamProg.init d) with
+  | StreamProg.RFall s =>
+      ReaderSrcFacts.callouts_head d = Some (StreamProg.int_of s (L "subsectionWordLength"), StreamProg.s_rest s) /\
+      StreamProg.int_of s (L "currentLength") = 4%N /\
+      StreamProg.evc Gen.Readers.guard_callouts s = Some (4 <? StreamProg.int_of s (L "subsectionWordLength") * 4)%N
+  | StreamProg.RErr => ReaderSrcFacts.callouts_head d = None
+  | _ => False
+  end.
+Proof. exact ReaderSrcFacts.callouts_head_correct. Qed.
+Print Assumptions C03_source_callouts_head.
+Theorem C03_source_callouts_guard : forall wl cur d i mems,
+  StreamProg.evc Gen.Readers.guard_callouts
+    (StreamProg.mkS d i [(L "currentLength", Z.of_N cur); (L "subsectionWordLength", Z.of_N wl)] mems) = Some (cur <? wl * 4)%N.
+Proof. exact ReaderSrcFacts.callouts_guard. Qed.
+Print Assumptions C03_source_callouts_guard.
+Theorem C03_source_callouts_loop : Gen.Readers.loop_callouts = Spec.PublishedCalloutLoop.loop_callouts.
+Proof. reflexivity. Qed.
+Print Assumptions C03_source_callouts_loop.
 
 (* a registry message, when one is defined for the reason code, is filled with the referenced hex words: the entry is the first
    one of the SRC's type whose reason code contains "0x" + characters 4..7 of the reference code; "SRCWordN" refers to hex word N;
